@@ -91,8 +91,9 @@ def inputs(ctx):
                 continue
             modes = ["breaks", "emptytext"] if "" in lines else ["breaks"]
             for m in modes:
-                ins.append({"id": "g%d" % n, "writer": w, "lines": lines, "empty": m})
+                ins.append({"id": "g%d" % n, "writer": w, "lines": lines, "empty": m, "nb": n % 2 == 0})
                 n += 1
+
     for k in range(1500 if ctx.quick else 60000):
         lines = [_rand_text(rng) for _ in range(rng.randrange(1, 5))]
         if rng.random() < 0.25 and len(lines) > 1:
@@ -105,18 +106,26 @@ def inputs(ctx):
         w = rng.choice(WR)
         if w == "MicroDVD":
             lines = [l.replace("|", "/") for l in lines]
-        ins.append({"id": "r%d" % k, "writer": w, "lines": lines, "empty": rng.choice(["breaks", "emptytext"])})
+        ins.append({"id": "r%d" % k, "writer": w, "lines": lines, "empty": rng.choice(["breaks", "emptytext"]),
+                    "nb": rng.random() < 0.5})
     return ins
 
 
-def make_set(lines, empty_mode):
+def make_set(lines, empty_mode, neighbours=False):
     nodes = []
     for k, ln in enumerate(lines):
         if k:
             nodes.append(["b"])
         if ln != "" or empty_mode == "emptytext":
             nodes.append(["t", ln])
-    return build.caption_set({"langs": [{"lang": "en-US", "caps": [{"s": 1_000_000, "e": 2_000_000, "nodes": nodes}]}]})
+    caps = [{"s": 1_000_000, "e": 2_000_000, "nodes": nodes}]
+    if neighbours:
+        caps = ([{"s": 200_000, "e": 600_000, "nodes": [["t", PRE[0]]]}] + caps +
+                [{"s": 2_500_000, "e": 3_000_000, "nodes": [["t", POST[0]]]}])
+    return build.caption_set({"langs": [{"lang": "en-US", "caps": caps}]})
+
+
+PRE, POST = ["zq before"], ["after qz"]
 
 
 def cps(s):
@@ -153,13 +162,19 @@ def scan_output(w, out):
         doc = scan.scan_dfxp(root)
         return True, [p["lines"] for d in doc["divs"] for p in d["ps"]], []
     doc = scan.scan_sami(out)
-    return True, [p["lines"] for s in doc["syncs"] for p in s["ps"]], []
+    # a paragraph holding nothing but a non-breaking space is SAMI's way of ending the previous cue
+    # (a blank sync), not a cue
+    return True, [p["lines"] for s in doc["syncs"] for p in s["ps"]
+                  if "".join(p["lines"]).replace("\xa0", "").strip()], []
 
 
 def execute(inp):
     w = inp["writer"]
-    cs = make_set(inp["lines"], inp["empty"])
+    cs = make_set(inp["lines"], inp["empty"], inp.get("nb", False))
     rec = {"k": "text", "fmt": FMT[w], "lines": [cps(l) for l in inp["lines"]], "cues": [], "cues2": []}
+    if inp.get("nb"):
+        rec["pre"] = [[cps(l) for l in PRE]]
+        rec["post"] = [[cps(l) for l in POST]]
     try:
         out = WRITERS[w]().write(cs)
     except Exception as e:
@@ -189,7 +204,7 @@ def nontrivial(inp, rec):
 
 def corrupt(inp, rec):
     import copy
-    if not rec["ok"] or len(rec["cues"]) != 1:
+    if not rec["ok"] or len(rec["cues"]) != 1 or "pre" in rec:
         return []
     out = []
     c = copy.deepcopy(rec)
